@@ -35,10 +35,13 @@
    (a) int(digits, base) of CPython accepts a second "0b"/"0B" prefix inside the digits
        when base = 2 ("0b0b1" lexes as 1).  The model's [horner] rejects any digit >= base
        (BadNumberError), which is what the spelling means.
-   (b) a decimal literal beyond the float range: the code raises BadNumberError only when
-       10**e itself does not fit a float (e >= 309, modelled exactly); when the product
-       overflows it returns inf ("15.0e308").  The model raises BadNumberError whenever the
-       exact value rounds to infinity ([flt_overflow]). *)
+   (b) a decimal literal with an exponent is computed by the code in two float steps,
+       float(mantissa) * 10**e  or  * float(Fraction(1, 10**-e)); the intermediate power can
+       leave the float range although the literal's value is inside it: 15.0e308 gives inf,
+       0.0001e310 (= 1e306) is a BadNumberError because 10**310 does not fit a float, and
+       123456789012345678901234.5e-323 is 1.2 per cent off because 1e-323 is subnormal.
+       The model is the single correctly rounded conversion of the whole spelling: the exact
+       rational, and BadNumberError exactly when that rounds to infinity ([flt_overflow]). *)
 From Ka Require Export Model.Prelude.
 From Coq Require Import NArith Ascii.
 From Ka Require Import Gen.GenTokens.
@@ -88,9 +91,10 @@ Definition is_digit (c : N) : bool := ((48 <=? c) && (c <=? 57))%N.
 Definition is_lower (c : N) : bool := ((97 <=? c) && (c <=? 122))%N.
 Definition is_upper (c : N) : bool := ((65 <=? c) && (c <=? 90))%N.
 Definition is_letter (c : N) : bool := is_lower c || is_upper c.
-(* € $ £ ¥ *)
-Definition is_currency (c : N) : bool := ((c =? 8364) || (c =? 36) || (c =? 163) || (c =? 165))%N.
-(* VAR_REGEX  [a-zA-Z€$£¥][_a-zA-Z0-9€$£¥]*  *)
+(* the non-ASCII-letter identifier characters: μ (U+03BC) € $ £ ¥ *)
+Definition is_currency (c : N) : bool :=
+  ((c =? 956) || (c =? 8364) || (c =? 36) || (c =? 163) || (c =? 165))%N.
+(* VAR_REGEX  [a-zA-Zμ€$£¥][_a-zA-Z0-9μ€$£¥]*  *)
 Definition ident_start (c : N) : bool := is_letter c || is_currency c.
 Definition ident_char (c : N) : bool := (c =? 95)%N || is_letter c || is_digit c || is_currency c.
 (* [0-9a-fA-F] *)
@@ -222,7 +226,6 @@ Definition read_num (r : text) : nres :=
             let e := dec_val es in
             if dot then
               if neg then nres_of (nm + k) (mk_flt (mant / inject_Z (10 ^ e))%Q)
-              else if (309 <=? e)%Z then NBad          (* float * 10**e : OverflowError *)
               else nres_of (nm + k) (mk_flt (mant * inject_Z (10 ^ e))%Q)
             else
               if neg && (0 <? e)%Z
@@ -353,11 +356,12 @@ Section Lexer.
 
   (* Everything the proofs assume about str.isspace / isalpha / isnumeric, per character:
      whitespace is not significant, not alphabetic, not numeric; ASCII letters are alphabetic
-     and are the only alphabetic significant characters; ASCII digits are numeric; '.' is not. *)
+     and every alphabetic significant character is an identifier character (the letters
+     and μ); ASCII digits are numeric; '.' is not. *)
   Definition class_ok_b (c : N) : bool :=
     implb (isspace c) (negb (sig_char c) && negb (isalpha c) && negb (isnumeric c))
     && implb (is_letter c) (isalpha c)
-    && implb (sig_char c && isalpha c) (is_letter c)
+    && implb (sig_char c && isalpha c) (ident_char c)
     && implb (is_digit c) (isnumeric c)
     && implb (c =? ch_dot)%N (negb (isnumeric c)).
 End Lexer.
